@@ -592,6 +592,9 @@ PROPS["C05"] = {
 }
 
 def nt_c12(lhs, impl):
+    if lhs.startswith("pgpdates "):
+        t = lhs.split(" ")
+        return ("pgpdates", int(t[1]).bit_length() // 8, t[3] if t[3] in ("-", "0") else len(t[3]), impl.split(" ")[-1][:4])
     if lhs.startswith("pgpframes "):
         d = _hexbytes(lhs.split(" ")[1])
         t = impl.split(" ")
@@ -607,8 +610,8 @@ def nt_c12(lhs, impl):
 PROPS["C12"] = {
     "modules": ["WhatIs.Props.C12"],
     "theorems": ["WhatIs.C12.reserialize_exact", "WhatIs.C12.parsed_length", "WhatIs.C12.fingerprint_rfc4880", "WhatIs.C12.kdf_witness",
-                 "WhatIs.C12.mpi_bits_declared", "WhatIs.C12.frame_new", "WhatIs.C12.frame_old", "WhatIs.C12.frame_partial"],
-    "facts": {},
+                 "WhatIs.C12.mpi_bits_declared", "WhatIs.C12.lifetime_zero_is_never", "WhatIs.C12.expiry_spec", "WhatIs.C12.expiry_zero_witness", "WhatIs.C12.frame_new", "WhatIs.C12.frame_old", "WhatIs.C12.frame_partial"],
+    "facts": {"pgp.lifetimeZeroIsNever": True},
     "nontrivial": nt_c12,
     "rule": "v4 keys written by the harness's OWN OpenPGP writer (own packet framing, own framing of signed data, signatures made with the "
             "Go standard library): primaries RSA-1024/2047, DSA, ECDSA P-256/384/521, EdDSA; subkeys RSA, ECDH P-256 and cv25519, ECDSA "
